@@ -133,19 +133,25 @@ let jd_of_pool (spec : string) : jd option =
 
 (* the model's run of such a pool: an object that does not decode is met in the first pass (part A: the reads of one
    pass); healthy data on a source that can be sought is read pass after pass (part B) *)
+let jd_seekable (j : jd) : bool = (j.d_style = "f" || j.d_style = "s")
+let jd_eof_with_data (j : jd) : bool = (j.d_style = "e" || j.d_style = "s")
+
 let jd_model (j : jd) : (jdres * int) option =
-  let seekable = (j.d_style = "f") in
   let has_bad = jd_spec_fails j.d_items in
-  if seekable && not has_bad && j.d_passes <> 1 then begin
+  if jd_seekable j && not has_bad && j.d_passes <> 1 then begin
     let a = int_of_nat (jd_count_ammo j.d_items) in
-    if j.d_passes = 0 && j.d_limit = 0 && a > 0 then None
+    if j.d_passes = 0 && j.d_limit = 0 && a > 0 && not (jd_eof_with_data j) then None
+    (* short reads of a source that hands its LAST data out with io.EOF: how much of the pass is decoded when the end
+       comes depends on where the reads cut the objects -- below the model's granularity, not predicted *)
+    else if jd_eof_with_data j && j.d_chunked && a > 0 then None
     else
+      let pend = if jd_eof_with_data j then a else 0 in
       let (r, d) = jd_passes (nat_of_int 10000) jd_current (nat_of_int j.d_passes) (nat_of_int j.d_limit) (nat_of_int a)
-                     (j.d_items <> []) (nat_of_int 0) (nat_of_int 0) (nat_of_int 0) in
+                     (nat_of_int pend) (j.d_items <> []) (nat_of_int 0) (nat_of_int 0) (nat_of_int 0) in
       Some (r, int_of_nat d)
   end else begin
     let chunks = if j.d_chunked then List.map (fun i -> [ i ]) j.d_items else (if j.d_items = [] then [] else [ j.d_items ]) in
-    let (r, d) = jd_pass jd_current (nat_of_int j.d_limit) (j.d_style = "e") chunks false (nat_of_int 0) in
+    let (r, d) = jd_pass jd_current (nat_of_int j.d_limit) (jd_eof_with_data j) chunks false (nat_of_int 0) in
     Some (r, int_of_nat d)
   end
 
@@ -473,10 +479,10 @@ let predict (c : string) (obs : string) : string * string * bool =
         else List.find_map (fun p ->
           match jd_of_pool specs.(p) with
           | Some j when undisturbed p && j.d_unlimited_schedule && j.d_instances >= 1 && not (jd_spec_fails j.d_items)
-                        && not (j.d_style = "f" && j.d_passes = 0 && j.d_limit = 0 && int_of_nat (jd_count_ammo j.d_items) > 0) ->
-              let want = int_of_nat (jd_spec_delivered (j.d_style = "f") (nat_of_int j.d_passes) (nat_of_int j.d_limit) j.d_items) in
+                        && not (jd_seekable j && j.d_passes = 0 && j.d_limit = 0 && int_of_nat (jd_count_ammo j.d_items) > 0) ->
+              let want = int_of_nat (jd_spec_delivered (jd_seekable j) (nat_of_int j.d_passes) (nat_of_int j.d_limit) j.d_items) in
               let shot = (try int_of_string a_obs.(p) with _ -> -1) in
-              if shot <> want then Some (p, shot, want) else None
+              if shot <> want then Some (p, shot, want, jd_seekable j && jd_eof_with_data j) else None
           | _ -> None) (List.init npools (fun p -> p)) in
       (* the warm-up as a component: what the real gun's WarmUp returned against what the specification says of the
          endpoint -- it has to fail iff [gw_spec_fails], and the failure has to carry the FIRST thing that went wrong
@@ -582,9 +588,10 @@ let predict (c : string) (obs : string) : string * string * bool =
            | None -> "ok")
         else if short_jd <> None then
           (match short_jd with
-           | Some (p, shot, want) ->
-               Printf.sprintf "BAD:outcome:nil-%s:json-decode-provider pool=%d shots=%d data-and-config-ask-for=%d"
-                 (if shot < want then "before-out-of-ammo" else "after-more-shots-than-asked-for") p shot want
+           | Some (p, shot, want, sw) ->
+               Printf.sprintf "BAD:outcome:nil-%s:json-decode-provider%s pool=%d shots=%d data-and-config-ask-for=%d"
+                 (if shot < want then "before-out-of-ammo" else "after-more-shots-than-asked-for")
+                 (if sw then ":source-that-can-be-sought-hands-its-last-data-out-with-EOF" else "") p shot want
            | None -> "ok")
         else if not o.o_wait then begin
           let pre = List.filter_map (fun t -> match String.split_on_char '.' t with
